@@ -1,6 +1,7 @@
 import Rare.Model.C01
 import Rare.Model.C02
 import Rare.Model.C09Utf8
+import Rare.Model.C16
 /-!
 # C01: classification of one line by `processLineSync`, over the match CONTEXT
 
@@ -40,12 +41,16 @@ def runE {α : Type} (gm : Int → Except String Bytes) (gk : Bytes → Except S
     | .error m => .error m
   | .panic m => .error m
 
-/-- `GetKey` of the extractor's context as a byte string; the three JSON views (`{.}`, `{#}`, `{.#}`) are
-    property C16's and are outside this model (the driver answers `unmodelled json`). -/
+/-- `GetKey` of the extractor's context as a byte string; the three JSON views (`{.}`, `{#}`, `{.#}` / `{#.}`) are
+    the ones of property C16 (`C16.getKeyJson`: `json(named, numbered)` over the name table – names sorted – and
+    the numbered groups, values written by `WriteInferred`), evaluated on THIS line's indices and bytes. -/
 def ctxGetKey (c : C02.MatchCtx) (key : Bytes) : Except String Bytes :=
   match C02.getKey c key with
   | .ok (.val b) => .ok b
-  | .ok .json => .error "unmodelled:json"
+  | .ok .json =>
+    match C16.getKeyJson key c.names c.indices c.line with
+    | some r => r
+    | none => .error "unmodelled:json"
   | .error m => .error m
 
 /-- `stage(expContext)` / `BuildKey(expContext)` -/
